@@ -546,4 +546,134 @@ theorem execCore_eq_specScan (y : Bool) (f : Finder) (n : Nat) (hf : Leftmost f 
     rw [hfuel]
     simp [execCore, hin, specScan]
 
+/-! ### UTF-8 position map -/
+
+/-- UTF-8 offset of the boundary after the first k runes. -/
+def pre8 (l : List (Nat × Nat)) (k : Nat) : Nat := ((l.take k).map (fun p => utf8Len p.1)).sum
+
+theorem utf8Len_pos (r : Nat) : 1 ≤ utf8Len r := by
+  unfold utf8Len; split <;> (try omega); split <;> (try omega); split <;> omega
+
+theorem pre8_cons (r sz : Nat) (l : List (Nat × Nat)) (k : Nat) :
+    pre8 ((r, sz) :: l) (k + 1) = utf8Len r + pre8 l k := by
+  simp [pre8]
+
+theorem pre8_pos : ∀ (l : List (Nat × Nat)) (k : Nat), 1 ≤ k → k ≤ l.length → 1 ≤ pre8 l k := by
+  intro l
+  induction l with
+  | nil => intro k h1 h2; simp at h2; omega
+  | cons p l ih =>
+    intro k h1 h2
+    obtain ⟨r, sz⟩ := p
+    cases k with
+    | zero => omega
+    | succ k => rw [pre8_cons]; have := utf8Len_pos r; omega
+
+theorem searchSrc_utf8Loop : ∀ (l : List (Nat × Nat)) (s u k : Nat), 1 ≤ k → k ≤ l.length →
+    searchSrc (utf8Loop l s u) (u + pre8 l k) = some (u + pre8 l k, s + totalSize (l.take k)) := by
+  intro l
+  induction l with
+  | nil => intro s u k h1 h2; simp at h2; omega
+  | cons p l ih =>
+    intro s u k h1 h2
+    obtain ⟨r, sz⟩ := p
+    cases k with
+    | zero => omega
+    | succ k =>
+      simp only [utf8Loop, searchSrc, pre8_cons, List.take_succ_cons, totalSize_cons]
+      cases k with
+      | zero =>
+        have h0 : pre8 l 0 = 0 := by simp [pre8]
+        simp [h0, totalSize]
+      | succ k =>
+        simp only [List.length_cons] at h2
+        have hpos := pre8_pos l (k + 1) (by omega) (by omega)
+        have hlt : ¬ (u + utf8Len r ≥ u + (utf8Len r + pre8 l (k + 1))) := by omega
+        simp only [hlt, if_false]
+        have := ih (s + sz) (u + utf8Len r) (k + 1) (by omega) (by omega)
+        have e1 : u + utf8Len r + pre8 l (k + 1) = u + (utf8Len r + pre8 l (k + 1)) := by omega
+        have e2 : s + sz + totalSize (l.take (k + 1)) = s + (sz + totalSize (l.take (k + 1))) := by omega
+        rw [e1, e2] at this
+        exact this
+
+theorem strictDecode_eq_decode : ∀ (units : List Nat) (l : List (Nat × Nat)),
+    strictDecode units = some l → l = decode units := by
+  intro units
+  fun_induction decode units with
+  | case1 => intro l h; simp [strictDecode] at h; first | exact h | exact h.symm
+  | case2 c =>
+    intro l h
+    simp only [strictDecode] at h
+    split at h
+    · simp at h
+    · split at h
+      · simp at h
+      · simp [strictDecode] at h; first | exact h | exact h.symm
+  | case3 c d rest hp ih =>
+    intro l h
+    simp only [Bool.and_eq_true] at hp
+    simp only [strictDecode, hp.1, hp.2, if_true] at h
+    cases hr : strictDecode rest with
+    | none => rw [hr] at h; simp at h
+    | some l' =>
+      rw [hr] at h; simp at h
+      rw [← h, ih l' hr]
+  | case4 c d rest hp ih =>
+    intro l h
+    simp only [strictDecode] at h
+    by_cases hc : isHi c = true
+    · have hd : isLo d = false := by
+        cases hd : isLo d
+        · rfl
+        · exact absurd (by simp [hc, hd]) hp
+      simp [hc, hd] at h
+    · simp only [hc, Bool.false_eq_true, if_false] at h
+      split at h
+      · simp at h
+      · cases hr : strictDecode (d :: rest) with
+        | none => rw [hr] at h; simp at h
+        | some l' =>
+          rw [hr] at h; simp at h
+          rw [← h, ih l' hr]
+
+/-! ### replace: fast accumulation = generic accumulation -/
+
+def rS (r : List Int) : Nat := (r.getD 0 0).toNat
+def rE (r : List Int) : Nat := (r.getD 1 0).toNat
+
+/-- raw results are in order, non-overlapping and inside the subject. -/
+def Ordered (n : Nat) : List (List Int) → Nat → Prop
+  | [], li => li ≤ n
+  | r :: rest, li => li ≤ rS r ∧ rS r ≤ rE r ∧ Ordered n rest (rE r)
+
+theorem sub_self (units : List Nat) (a : Nat) : sub units a a = [] := by simp [sub]
+
+theorem sub_all (units : List Nat) : sub units 0 units.length = units := by simp [sub]
+
+theorem copy_piece (units : List Nat) (x li : Nat) (buf : List Nat) :
+    (if (x != li) = true then buf ++ sub units li x else buf) = buf ++ sub units li x := by
+  by_cases he : x = li
+  · subst he; simp [sub_self]
+  · simp [he]
+
+theorem fastReplaceLoop_eq (units : List Nat) (repl : List Int → List Nat) (n : Nat) :
+    ∀ (raw : List (List Int)) (li : Nat) (buf : List Nat), Ordered n raw li →
+      fastReplaceLoop units repl raw li buf =
+        genericReplaceLoop units (raw.map (fun r => (rS r, rE r - rS r, repl r))) li buf ∧
+      (fastReplaceLoop units repl raw li buf).2 ≤ n := by
+  intro raw
+  induction raw with
+  | nil => intro li buf h; simp [fastReplaceLoop, genericReplaceLoop]; exact h
+  | cons r rest ih =>
+    intro li buf h
+    obtain ⟨h1, h2, h3⟩ := h
+    simp only [fastReplaceLoop, List.map_cons, genericReplaceLoop]
+    have hge : rS r ≥ li := h1
+    have hsum : rS r + (rE r - rS r) = rE r := by omega
+    simp only [hge, if_true, hsum]
+    have hbuf := copy_piece units (r.getD 0 0).toNat li buf
+    rw [hbuf]
+    have := ih (rE r) (buf ++ sub units li (rS r) ++ repl r) h3
+    exact this
+
 end GojaModel.C20
